@@ -70,8 +70,9 @@ fn mp_case(bytes: &[u8]) -> String {
         let f = MrtFile::new(bytes);
         let v: Vec<String> = f.messages().map(|m| {
             fn sc(as4: u8, s: &StateChangeAs4) -> String {
-                format!("S{}:{}:{}:{}:{}:{}:{}:{}:{}", as4, s.peer_asn().into_u32(), s.local_asn().into_u32(), s.interface(),
-                    u16::from(s.afi()), addr(s.peer_addr()), addr(s.local_addr()), u16::from(s.old_state()), u16::from(s.new_state()))
+                format!("S{}:{}:{}:{}:{}:{}:{}:{}/{:?}:{}/{:?}", as4, s.peer_asn().into_u32(), s.local_asn().into_u32(), s.interface(),
+                    u16::from(s.afi()), addr(s.peer_addr()), addr(s.local_addr()), u16::from(s.old_state()), s.old_state(),
+                    u16::from(s.new_state()), s.new_state())
             }
             fn msg(as4: u8, m: &MessageAs4<&[u8]>) -> String {
                 format!("M{}:{}:{}:{}:{}:{}:{}:{}", as4, m.peer_asn().into_u32(), m.local_asn().into_u32(), m.interface(),
